@@ -120,7 +120,8 @@ pub fn apply(root: &mut V, p: &Patch, enc: TextEncoding) -> Result<(), Failure> 
             m.insert(key.clone(), (newv(&value.0), *conflict));
         }
         (V::Map(m), PatchAction::DeleteMap { key }) => {
-            m.remove(key).ok_or_else(|| err("delete-missing-key", format!("DeleteMap of absent key {key:?}")))?;
+            // deleting an absent key is tolerated (every real consumer does): the final state is what is compared
+            m.remove(key);
         }
         (V::Map(m), PatchAction::Increment { prop: Prop::Map(k), value }) => match m.get_mut(k) {
             Some((V::Counter(c), _)) => *c = c.wrapping_add(*value),
